@@ -257,6 +257,15 @@ def check(ctx, rep):
             rep.ok("R-UNITS", "get_unit-is-one-lookup", gu.where(), "get_unit is a single HashMap::get on UNITS: a string that is no identifier returns None")
         else:
             rep.bad("R-UNITS", "R-UNITS:get_unit-is-one-lookup", gu.where(), "get_unit is not a plain HashMap::get on the table: %s" % calls)
+        # ... with the caller's text itself as the key: a normalised key (trimmed, lower-cased, prefix-stripped) makes strings that
+        # are no identifier resolve to a unit
+        for bi0, t0 in gu.calls():
+            if strip_generics(mir.callee_name(t0) or "") == "std::collections::HashMap::get" and len(t0["args"]) > 1:
+                kdesc = repr(G.describe(gu, t0["args"][1]))
+                if re.fullmatch(r"&?_1\**", kdesc):
+                    rep.ok("R-UNITS", "get_unit-key-is-the-argument", gu.where(bi0), "the table is asked for exactly the text that was passed in")
+                else:
+                    rep.bad("R-UNITS", "R-UNITS:get_unit-key-is-the-argument", gu.where(bi0), "get_unit looks up %s, not the text it was given: strings that are not identifiers (padded, differently cased ...) resolve to a unit" % kdesc[:100])
         # every identifier reaches that lookup: branches in front of it are evaluated for each key of the table
         switches = [bi for bi in range(gu.n) if gu.term(bi)["k"] == "switch"]
         getb = [bi for bi, t2 in gu.calls() if strip_generics(mir.callee_name(t2) or "") == "std::collections::HashMap::get"]
